@@ -181,16 +181,16 @@ MULI = '_ZN9fixedmath6detail15fixed_multiplyiENS_7fixed_tES1_'
 K_MULI = (MULI, 'pre_c01', 'post_mul')
 MULBE = ('kissat', 'cadical')
 U('C02', 'c02.mul.kernel', MULI, 'pre_c01', 'post_mul', cxx='fixedmath::detail::fixed_multiplyi($1,$2)', backends=MULBE, timeout=600, split=True)
-U('C02', 'c02.mul.op', '_ZN9fixedmathmlINS_7fixed_tES1_vEEDaT_T0_', 'pre_c01', 'post_mul', replace=[K_MULI], cxx='($1 * $2)', backends=MULBE, timeout=300)
-U('C02', 'c02.mul.assign', '_ZN9fixedmathmLINS_7fixed_tEvEERS1_S2_T_', 'pre_c01', 'post_mul', replace=[K_MULI], cxx='($1 *= $2)', backends=MULBE, timeout=300)
+U('C02', 'c02.mul.op', '_ZN9fixedmathmlINS_7fixed_tES1_vEEDaT_T0_', 'pre_c01', 'post_mul', replace=[K_MULI], cxx='($1 * $2)', backends=MULBE, timeout=900)
+U('C02', 'c02.mul.assign', '_ZN9fixedmathmLINS_7fixed_tEvEERS1_S2_T_', 'pre_c01', 'post_mul', replace=[K_MULI], cxx='($1 *= $2)', backends=MULBE, timeout=900)
 for t, ct in ITYPES:
     ks = ('_ZN9fixedmath6detail21fixed_multiply_scalarI%svEENS_7fixed_tES2_T_' % t, 'pre_muls_' + t, 'post_muls_' + t)
     kr = ('_ZN9fixedmath6detail21fixed_multiply_scalarI%svEENS_7fixed_tET_S2_' % t, 'pre_mulsr_' + t, 'post_mulsr_' + t)
     U('C02', 'c02.muls.%s' % ct, ks[0], ks[1], ks[2], cxx='fixedmath::detail::fixed_multiply_scalar($1,$2)', backends=MULBE, timeout=600, split=True)
-    U('C02', 'c02.mulsr.%s' % ct, kr[0], kr[1], kr[2], replace=[ks], cxx='fixedmath::detail::fixed_multiply_scalar($1,$2)', backends=MULBE, timeout=300)
-    U('C02', 'c02.op.f_%s' % ct, '_ZN9fixedmathmlINS_7fixed_tE%svEEDaT_T0_' % t, ks[1], ks[2], replace=[ks], cxx='($1 * $2)', backends=MULBE, timeout=300)
-    U('C02', 'c02.op.%s_f' % ct, '_ZN9fixedmathmlI%sNS_7fixed_tEvEEDaT_T0_' % t, kr[1], kr[2], replace=[ks], cxx='($1 * $2)', backends=MULBE, timeout=300)
-    U('C02', 'c02.assign.%s' % ct, '_ZN9fixedmathmLI%svEERNS_7fixed_tES2_T_' % t, ks[1], ks[2], replace=[ks], cxx='($1 *= $2)', backends=MULBE, timeout=300)
+    U('C02', 'c02.mulsr.%s' % ct, kr[0], kr[1], kr[2], replace=[ks], cxx='fixedmath::detail::fixed_multiply_scalar($1,$2)', backends=MULBE, timeout=900)
+    U('C02', 'c02.op.f_%s' % ct, '_ZN9fixedmathmlINS_7fixed_tE%svEEDaT_T0_' % t, ks[1], ks[2], replace=[ks], cxx='($1 * $2)', backends=MULBE, timeout=900)
+    U('C02', 'c02.op.%s_f' % ct, '_ZN9fixedmathmlI%sNS_7fixed_tEvEEDaT_T0_' % t, kr[1], kr[2], replace=[ks], cxx='($1 * $2)', backends=MULBE, timeout=900)
+    U('C02', 'c02.assign.%s' % ct, '_ZN9fixedmathmLI%svEERNS_7fixed_tES2_T_' % t, ks[1], ks[2], replace=[ks], cxx='($1 *= $2)', backends=MULBE, timeout=900)
 
 # portable (non-GNU) branch of checked_multiply, compiled through the verification hook
 U('C02', 'c02.mul.kernel.portable', MULI, 'pre_c01', 'post_mul', cfg='portable', cxx='fixedmath::detail::fixed_multiplyi($1,$2)', engine='int', timeout=300)
@@ -210,17 +210,17 @@ DIVF = '_ZN9fixedmath6detail15fixed_divisionfENS_7fixed_tES1_'
 K_DIVF = (DIVF, 'pre_c01', 'post_div_mul')
 K_SHL = (SHL, 'pre_c18', 'post_shl')
 U('C03', 'c03.div.kernel', DIVF, 'pre_c01', 'post_div_mul', cxx='fixedmath::detail::fixed_divisionf($1,$2)', engine='int', replace=[K_SHL], timeout=120)
-U('C03', 'c03.div.kernel.ub', DIVF, 'pre_c01', 'post_div_ub', cxx='fixedmath::detail::fixed_divisionf($1,$2)', backends=MULBE, timeout=300)
+U('C03', 'c03.div.kernel.ub', DIVF, 'pre_c01', 'post_div_ub', cxx='fixedmath::detail::fixed_divisionf($1,$2)', backends=MULBE, timeout=900)
 U('C03', 'c03.div.kernel.bv', DIVF, 'pre_c01', 'post_div_mul', cxx='fixedmath::detail::fixed_divisionf($1,$2)', backends=MULBE, timeout=3000, split=True, tier='thorough')
-U('C03', 'c03.div.op', '_ZN9fixedmathdvINS_7fixed_tES1_vEEDaT_T0_', 'pre_c01', 'post_div_mul', replace=[K_DIVF], cxx='($1 / $2)', backends=MULBE, timeout=300)
-U('C03', 'c03.div.assign', '_ZN9fixedmathdVINS_7fixed_tEvEERS1_S2_T_', 'pre_c01', 'post_div_mul', replace=[K_DIVF], cxx='($1 /= $2)', backends=MULBE, timeout=300)
+U('C03', 'c03.div.op', '_ZN9fixedmathdvINS_7fixed_tES1_vEEDaT_T0_', 'pre_c01', 'post_div_mul', replace=[K_DIVF], cxx='($1 / $2)', backends=MULBE, timeout=900)
+U('C03', 'c03.div.assign', '_ZN9fixedmathdVINS_7fixed_tEvEERS1_S2_T_', 'pre_c01', 'post_div_mul', replace=[K_DIVF], cxx='($1 /= $2)', backends=MULBE, timeout=900)
 for t, ct in ITYPES:
     ks = ('_ZN9fixedmath6detail24fixed_division_by_scalarI%svEENS_7fixed_tES2_T_' % t, 'pre_muls_' + t, 'post_divs_mul_' + t)
     U('C03', 'c03.divs.%s' % ct, ks[0], ks[1], 'post_divs_mul_' + t, cxx='fixedmath::detail::fixed_division_by_scalar($1,$2)', engine='int', timeout=120)
-    U('C03', 'c03.divs.ub.%s' % ct, ks[0], ks[1], 'post_divs_ub_' + t, cxx='fixedmath::detail::fixed_division_by_scalar($1,$2)', backends=MULBE, timeout=300)
+    U('C03', 'c03.divs.ub.%s' % ct, ks[0], ks[1], 'post_divs_ub_' + t, cxx='fixedmath::detail::fixed_division_by_scalar($1,$2)', backends=MULBE, timeout=900)
     U('C03', 'c03.divs.bv.%s' % ct, ks[0], ks[1], 'post_divs_mul_' + t, cxx='fixedmath::detail::fixed_division_by_scalar($1,$2)', backends=MULBE, timeout=3000, split=True, tier='thorough')
-    U('C03', 'c03.op.f_%s' % ct, '_ZN9fixedmathdvINS_7fixed_tE%svEEDaT_T0_' % t, ks[1], ks[2], replace=[ks], cxx='($1 / $2)', backends=MULBE, timeout=300)
-    U('C03', 'c03.assign.%s' % ct, '_ZN9fixedmathdVI%svEERNS_7fixed_tES2_T_' % t, ks[1], ks[2], replace=[ks], cxx='($1 /= $2)', backends=MULBE, timeout=300)
+    U('C03', 'c03.op.f_%s' % ct, '_ZN9fixedmathdvINS_7fixed_tE%svEEDaT_T0_' % t, ks[1], ks[2], replace=[ks], cxx='($1 / $2)', backends=MULBE, timeout=900)
+    U('C03', 'c03.assign.%s' % ct, '_ZN9fixedmathdVI%svEERNS_7fixed_tES2_T_' % t, ks[1], ks[2], replace=[ks], cxx='($1 /= $2)', backends=MULBE, timeout=900)
 
 # ----------------------------------------------------------------------------- C16
 prop('C16', 'proof',
@@ -242,7 +242,7 @@ for t, ct in ITYPES:
     for opn, sym in OPS[:2]:
         for v in ('lr', 'rl', 'as'):
             U('C16', 'c16.%s.%s.%s' % (opn, v, ct), 'lem_c16_%s_%s_%s' % (v, opn, t), pre, None, lemma=True, cxx='lem_c16_%s_%s_%s($1,$2)' % (v, opn, t))
-    U('C16', 'c16.muls.%s' % ct, 'lem_c16_muls_' + t, 'pre_muls_' + t, None, lemma=True, cxx='lem_c16_muls_%s($1,$2)' % t, backends=MULBE, timeout=600)
+    U('C16', 'c16.muls.%s' % ct, 'lem_c16_muls_' + t, 'pre_muls_' + t, None, lemma=True, cxx='lem_c16_muls_%s($1,$2)' % t, backends=MULBE, timeout=1200)
     U('C16', 'c16.mulc.%s' % ct, 'lem_c16_mulc_' + t, 'pre_muls_' + t, None, lemma=True, cxx='lem_c16_mulc_%s($1,$2)' % t, replace=[(ks, 'UF', None)])
     U('C16', 'c16.mul.as.%s' % ct, 'lem_c16_as_mul_' + t, 'pre_muls_' + t, None, lemma=True, cxx='lem_c16_as_mul_%s($1,$2)' % t, replace=[(ks, 'UF', None)])
     U('C16', 'c16.divs.%s' % ct, 'lem_c16_divs_' + t, 'pre_muls_' + t, None, lemma=True, cxx='lem_c16_divs_%s($1,$2)' % t, engine='int', timeout=120)
@@ -446,12 +446,12 @@ COS = '_ZN9fixedmath3cosENS_7fixed_tE'
 K_SIN_RANGE = (SIN_RANGE, 'pre_valid1', 'post_sin_range')
 U('C09', 'c09.constants', 'lem_c09_constants', None, None, lemma=True, cxx='lem_c09_constants()')
 U('C09', 'c09.sin_range', SIN_RANGE, 'pre_valid1', 'post_sin_range', cxx='fixedmath::detail::sin_range($1)', **INTQ)
-U('C09', 'c09.sin_range.ub', SIN_RANGE, 'pre_valid1', 'post_any1', cxx='fixedmath::detail::sin_range($1)', backends=MULBE, timeout=600)
+U('C09', 'c09.sin_range.ub', SIN_RANGE, 'pre_valid1', 'post_any1', cxx='fixedmath::detail::sin_range($1)', backends=MULBE, timeout=1200)
 U('C09', 'c09.range_period', 'lem_c09_range_period', 'pre_c09_per', None, lemma=True, cxx='lem_c09_range_period($1,$2)', **INTQ)
 U('C09', 'c09.sin_factors', 'lem_c09_sin_factors', 'pre_c01', None, lemma=True, cxx='lem_c09_sin_factors($1,$2)', replace=[(SIN_RANGE, 'UF', 'post_sin_range')], **INTQ)
 U('C09', 'c09.cos_period', 'lem_c09_cos_period', 'pre_c09_per', None, lemma=True, cxx='lem_c09_cos_period($1,$2)', **INTQ)
 U('C09', 'c09.sin.kernel', SIN, 'pre_valid1', 'post_unit_interval', replace=[K_SIN_RANGE], cxx='fixedmath::sin($1)', backends=MULBE, timeout=900, split=True)
-U('C09', 'c09.cos', COS, 'pre_valid1', 'post_unit_interval', replace=[(SIN, 'pre_valid1', 'post_unit_interval')], cxx='fixedmath::cos($1)', backends=MULBE, timeout=300)
+U('C09', 'c09.cos', COS, 'pre_valid1', 'post_unit_interval', replace=[(SIN, 'pre_valid1', 'post_unit_interval')], cxx='fixedmath::cos($1)', backends=MULBE, timeout=900)
 
 # deductive accuracy of the sin kernel against the exact polynomial, sliced over the folded domain (thorough tier)
 SIN_SLICE = 4096
@@ -691,12 +691,12 @@ prop('C20', 'other',
      assumptions=['glibc sinl/cosl/tanl as the oracle of the stand-in'])
 UF_TRIG = [(SIN, 'UF', None), (COS, 'UF', None), (TAN, 'UF', None), ('_ZN9fixedmath6detail24fixed_division_by_scalarIivEENS_7fixed_tES2_T_', 'UF', None)]
 for t, ct in ITYPES:
-    U('C20', 'c20.a2r.' + ct, '_ZN9fixedmath16angle_to_radiansI%svEENS_7fixed_tET_' % t, 'pre_i2f_' + t, 'post_a2r_' + t, cxx='fixedmath::angle_to_radians($1)', backends=MULBE, timeout=600)
+    U('C20', 'c20.a2r.' + ct, '_ZN9fixedmath16angle_to_radiansI%svEENS_7fixed_tET_' % t, 'pre_i2f_' + t, 'post_a2r_' + t, cxx='fixedmath::angle_to_radians($1)', backends=MULBE, timeout=1200)
     U('C20', 'c20.same_arg.' + ct, 'lem_c20_same_arg_' + t, 'pre_c20_' + t, None, lemma=True, cxx='lem_c20_same_arg_%s($1)' % t, replace=[(I2F(t), 'pre_i2f_' + t, 'post_i2f_' + t)], **INTQ)
-    U('C20', 'c20.forward.' + ct, 'lem_c20_sin_is_sin_of_arg_' + t, 'pre_c20_' + t, None, lemma=True, cxx='lem_c20_sin_is_sin_of_arg_%s($1)' % t, replace=UF_TRIG + [('_ZN9fixedmath6detail21fixed_multiply_scalarI%svEENS_7fixed_tES2_T_' % t, 'UF', None)], backends=MULBE, timeout=300)
-U('C20', 'c20.same_arg.float', 'lem_c20_same_arg_f', 'pre_c20_f', None, lemma=True, cxx='lem_c20_same_arg_f($1)', replace=[UF_MULI], backends=MULBE, timeout=600)
-U('C20', 'c20.forward.float', 'lem_c20_sin_is_sin_of_arg_f', 'pre_c20_f', None, lemma=True, cxx='lem_c20_sin_is_sin_of_arg_f($1)', replace=UF_TRIG + [UF_MULI], backends=MULBE, timeout=300)
-U('C20', 'c20.forward.fixed_t', 'lem_c20_sin_is_sin_of_arg_x', 'pre_c20_x', None, lemma=True, cxx='lem_c20_sin_is_sin_of_arg_x($1)', replace=UF_TRIG + [UF_MULI], backends=MULBE, timeout=300)
+    U('C20', 'c20.forward.' + ct, 'lem_c20_sin_is_sin_of_arg_' + t, 'pre_c20_' + t, None, lemma=True, cxx='lem_c20_sin_is_sin_of_arg_%s($1)' % t, replace=UF_TRIG + [('_ZN9fixedmath6detail21fixed_multiply_scalarI%svEENS_7fixed_tES2_T_' % t, 'UF', None)], backends=MULBE, timeout=900)
+U('C20', 'c20.same_arg.float', 'lem_c20_same_arg_f', 'pre_c20_f', None, lemma=True, cxx='lem_c20_same_arg_f($1)', replace=[UF_MULI], backends=MULBE, timeout=1200)
+U('C20', 'c20.forward.float', 'lem_c20_sin_is_sin_of_arg_f', 'pre_c20_f', None, lemma=True, cxx='lem_c20_sin_is_sin_of_arg_f($1)', replace=UF_TRIG + [UF_MULI], backends=MULBE, timeout=900)
+U('C20', 'c20.forward.fixed_t', 'lem_c20_sin_is_sin_of_arg_x', 'pre_c20_x', None, lemma=True, cxx='lem_c20_sin_is_sin_of_arg_x($1)', replace=UF_TRIG + [UF_MULI], backends=MULBE, timeout=900)
 
 
 def c20_scan(tier, seed):
@@ -729,7 +729,7 @@ COS_APROX = '_ZN9fixedmath15cos_angle_aproxEi'
 SQRT_APROX = '_ZN9fixedmath10sqrt_aproxENS_7fixed_tE'
 U('C19', 'c19.sin_aprox', SIN_APROX, 'pre_anyi', 'post_sin_aprox', cxx='fixedmath::sin_angle_aprox($1)', backends=('sat', 'kissat'), timeout=600)
 U('C19', 'c19.cos_aprox', COS_APROX, 'pre_anyi', 'post_cos_aprox', cxx='fixedmath::cos_angle_aprox($1)', backends=('sat', 'kissat'), timeout=600)
-U('C19', 'c19.atan_index_aprox', '_ZN9fixedmath16atan_index_aproxENS_7fixed_tE', 'pre_valid1', 'post_atan_index', cxx='fixedmath::atan_index_aprox($1)', prelude=LOWER_BOUND_PRELUDE_C19, replace_raw=['vf_lower_bound_long'], backends=MULBE, timeout=600)
+U('C19', 'c19.atan_index_aprox', '_ZN9fixedmath16atan_index_aproxENS_7fixed_tE', 'pre_valid1', 'post_atan_index', cxx='fixedmath::atan_index_aprox($1)', prelude=LOWER_BOUND_PRELUDE_C19, replace_raw=['vf_lower_bound_long'], backends=MULBE, timeout=1200)
 U('C19', 'c19.sqrt_aprox', SQRT_APROX, 'pre_valid1', 'post_sqrt_aprox', cxx='fixedmath::sqrt_aprox($1)', backends=('sat', 'kissat'), timeout=600)
 
 
@@ -755,7 +755,7 @@ prop('C07', 'proof',
                   'iostream operator<< is I/O, not arithmetic: excluded'],
      assumptions=['std::sqrt: assumed contract (C13)', 'std::lower_bound (in atan_index_aprox): external, assumed to return an iterator inside [first, last] (weaker than the standard\'s contract); std::begin/next/distance over std::array are translated as the pointer operations they are'])
 UB = dict(ub_only=True)
-HEAVY = dict(ub_only=True, backends=MULBE, timeout=600)
+HEAVY = dict(ub_only=True, backends=MULBE, timeout=1200)
 # comparison, bit and unary operators, floor/ceil, shifts
 for nm, mg, op in (('eq', 'eq', '=='), ('ne', 'ne', '!='), ('lt', 'lt', '<'), ('le', 'le', '<='), ('gt', 'gt', '>'), ('ge', 'ge', '>=')):
     U('C07', 'c07.cmp.' + nm, '_ZN9fixedmath%sENS_7fixed_tES0_' % mg, None, None, cxx='($1 %s $2)' % op, **UB)
